@@ -82,17 +82,42 @@ def gen_root():
     out.append("    use harness::IntoOutcome;")
     out.append("    Some(match name {")
     for feat, mod_, tr, attrs in derives():
-        out.append('        "%s" => %s::expand(ast, "%s").into_outcome(),' % (tr, mod_, tr))
+        out.append('        #[cfg(feature = "%s")] "%s" => %s::expand(ast, "%s").into_outcome(),' % (feat, tr, mod_, tr))
     out.append("        _ => return None,")
     out.append("    })")
     out.append("}")
-    out.append("pub(crate) const DERIVES: &[&str] = &[%s];" % ", ".join('"%s"' % d[2] for d in derives()))
+    out.append("pub(crate) const DERIVES: &[&str] = &[%s];" % ", ".join('#[cfg(feature = "%s")] "%s"' % (d[0], d[2]) for d in derives()))
     out.append("fn main() { harness::main(); }")
     return "\n".join(out) + "\n"
 
 
+# None = every feature of derive_more-impl (the default harness); a tuple = only those (used to observe code that is
+# compiled differently under a reduced feature set, e.g. cfg-gated helper modules)
+FEATURE_SET = None
+
+
+def _fs_tag():
+    return "" if FEATURE_SET is None else "_f" + common.digest(",".join(sorted(FEATURE_SET)))[:6]
+
+
+class feature_set:
+    """`with inproc.feature_set(("error", "display")): ...` builds/uses a harness restricted to those features."""
+
+    def __init__(self, feats):
+        self.feats = None if feats is None else tuple(sorted(feats))
+
+    def __enter__(self):
+        global FEATURE_SET
+        self.prev = FEATURE_SET
+        FEATURE_SET = self.feats
+
+    def __exit__(self, *a):
+        global FEATURE_SET
+        FEATURE_SET = self.prev
+
+
 def crate_dir():
-    return os.path.join(common.WORK, "inproc" + common.repo_tag())
+    return os.path.join(common.WORK, "inproc" + common.repo_tag() + _fs_tag())
 
 
 def features():
@@ -129,7 +154,7 @@ def build():
     feats = features() + list(INTERNALS)
     # the binary name is unique per repository copy: all builds share one target directory, where
     # equally named binaries of different copies would overwrite each other
-    binname = "inproc" + common.repo_tag()
+    binname = "inproc" + common.repo_tag() + _fs_tag()
     toml = """[package]
 name = "%s"
 version = "0.0.0"
@@ -166,9 +191,14 @@ panic = "unwind"
                 shutil.copy(cand, os.path.join(cdir, "Cargo.lock"))
                 break
     base = [f for f in feats if f not in INTERNALS]
+    if FEATURE_SET is not None:
+        unknown = [f for f in FEATURE_SET if f not in base]
+        if unknown:
+            raise Inconclusive("unknown derive_more-impl feature(s) %s" % unknown)
+        base = list(FEATURE_SET)
     first = None
     for opt in (INTERNALS, ("vc_int_args",), ("vc_int_fmt",), ()):
-        extra = () if opt == INTERNALS else ("--no-default-features", "--features", ",".join(base + list(opt)))
+        extra = () if (opt == INTERNALS and FEATURE_SET is None) else ("--no-default-features", "--features", ",".join(base + list(opt)))
         rc, diags, arts, err = common.cargo_json(cdir, ("build",), extra=extra)
         if rc == 0 and binname in arts:
             _built[cdir] = arts[binname]
